@@ -244,7 +244,41 @@ func countedLoop(an *ir.Analysis, h *ssa.BasicBlock) *Loop {
 		// path that goes round the loop (a path that leaves for another reason says nothing about it)
 		ordered := append([]*ir.Path{}, segs...)
 		sort.SliceStable(ordered, func(i, j int) bool { return (ordered[i].To == h) && (ordered[j].To != h) })
+		// a bottom-tested loop (`for i := range n`) is told by the test that ends every way round it: phi+1 < n, with
+		// the entry guarded by start < n. Comparisons of the counter inside its body are not its bound.
+		if step == 1 {
+			var rb *ir.Term
+			nRound, okRot := 0, true
+			for _, p := range ordered {
+				if p.To != h {
+					continue
+				}
+				nRound++
+				brs := p.Events(ir.KBranch)
+				if len(brs) == 0 {
+					okRot = false
+					break
+				}
+				last := brs[len(brs)-1]
+				at := last.Atom
+				if !(at.Op == "bin" && at.Aux == "<" && len(at.Args) == 2 && last.Pol) {
+					okRot = false
+					break
+				}
+				if d, isP := plusConst(at.Args[0], sym); !isP || d != 1 || mentions(at.Args[1], sym) || rb != nil && !ir.Same(rb, at.Args[1]) {
+					okRot = false
+					break
+				}
+				rb = at.Args[1]
+			}
+			if okRot && nRound > 0 && rb != nil && entryGuard(an, h, startT, rb) {
+				l.Op, l.Bound = "rot<", rb
+			}
+		}
 		for _, p := range ordered {
+			if l.Op != "" {
+				break
+			}
 			if !continuesLoop(p, h) {
 				continue
 			}
@@ -837,6 +871,71 @@ func earlyExit(an *ir.Analysis, h *ssa.BasicBlock) *ir.Path {
 		}
 	}
 	return nil
+}
+
+// loopSegments presents the segments that start at loop header h in the shape of a top-tested loop: iterations (one
+// pass over the body, ending where the next pass would begin) and exits (what follows the end of the loop, without any
+// step of the body). For a bottom-tested (rotated) loop - `for i := range n` - every segment from the header carries
+// one full pass followed by the bound test `i+1 < n`; it is cut behind that test. early is a segment that leaves the
+// loop from inside its body (before the bound test), nil if there is none.
+func loopSegments(an *ir.Analysis, h *ssa.BasicBlock, l *Loop) (iters, exits []*ir.Path, early *ir.Path) {
+	if l == nil || !l.Rotated() {
+		for _, p := range an.Segs[h] {
+			if p.To == h {
+				iters = append(iters, p)
+			} else {
+				exits = append(exits, p)
+			}
+		}
+		return iters, exits, earlyExit(an, h)
+	}
+	sym := an.Start[h].Reg(l.Phi)
+	test := &ir.Term{Op: "bin", Aux: "<", Args: []*ir.Term{{Op: "bin", Aux: "+", Args: sorted2(sym, ir.Const("1"))}, l.Bound}}
+	seen := map[string]bool{}
+	for _, p := range an.Segs[h] {
+		k := -1
+		for i := range p.Steps {
+			if st := &p.Steps[i]; st.Kind == ir.KBranch && ir.Same(st.Atom, test) {
+				k = i
+			}
+		}
+		if k < 0 {
+			if early == nil {
+				early = p
+			}
+			continue
+		}
+		it := &ir.Path{From: h, To: h, Steps: p.Steps[:k]}
+		if key := it.String(); !seen[key] {
+			seen[key] = true
+			iters = append(iters, it)
+		}
+		if p.To != h {
+			exits = append(exits, &ir.Path{From: h, To: p.To, Exit: p.Exit, Steps: p.Steps[k+1:], PhiOut: p.PhiOut, Results: p.Results, End: p.End})
+		}
+	}
+	return iters, exits, early
+}
+
+// zeroTrip: p is a path from the function entry that skips the bottom-tested loop l altogether (its guard
+// `start < bound` failed): nothing of the loop is missing on it.
+func zeroTrip(an *ir.Analysis, p *ir.Path, l *Loop) bool {
+	if l == nil || !l.Rotated() || l.Start == nil || l.Bound == nil {
+		return false
+	}
+	for _, form := range []*ir.Term{
+		{Op: "bin", Aux: "<", Args: []*ir.Term{l.Start, l.Bound}},
+	} {
+		if polarity(p, form) < 0 {
+			return true
+		}
+	}
+	if l.Bound.Op == "len" {
+		if s0, ok := l.Start.IntConst(); ok && s0 == 0 {
+			return polarity(p, &ir.Term{Op: "bin", Aux: "==", Args: sorted2(ir.Const("0"), l.Bound)}) > 0
+		}
+	}
+	return false
 }
 
 // lockstepRewrite: integer memory cells that advance in lock-step with the loop's counter (a cursor object whose
